@@ -156,5 +156,30 @@ def run(ctx):
                 ctx.case(sc.fp_of(v) + dtype, sc.nontrivial(v))
         ctx.sample({"kind": "lattice vector", "F": vs[0]["F"], "D": vs[0]["D"], "E": vs[0]["E"],
                     "peaks": [p["p"] for p in vs[0]["peaks"]], "dp": vs[0]["dp"]}, cap=3)
+    # ---- the peak direction is a COORDINATE of the grid, whatever labels the grid uses: north written as 360, or the -180..180
+    # convention (the labels are not reduced modulo 360)
+    for (F, D), vs in groups.items():
+        if not D:
+            continue
+        for name, relabel in (("north=360", lambda d: 360 if d == 0 else d), ("-180..180", lambda d: d - 360 if d > 180 else d)):
+            D2 = [relabel(d) for d in D]
+            if D2 == list(D):
+                continue
+            sub = vs[:150]
+            batch = L.build_batch(list(F), list(D), [v["E"] for v in sub]).assign_coords(dir=np.array(D2, float))
+            for how, acc in (("DataArray", batch.spec), ("Dataset", batch.to_dataset(name="efth").spec)):
+                try:
+                    got = np.asarray(acc.dp().values, float)
+                except Exception as ex:  # noqa
+                    ctx.violation({"op": "dp", "via": how, "raised": type(ex).__name__, "labels": name}, "dp raised %s on a grid labelled %s" % (type(ex).__name__, name), {"D": D2})
+                    continue
+                for v, g in zip(sub, got):
+                    ctx.case(("dp-labels", name, how, sc.fp_of(v)), True)
+                    if any(abs(g - relabel(d)) < 1e-4 for d in v["dp"]):
+                        ctx.replayed()
+                    else:
+                        ctx.violation({"op": "dp", "via": how, "labels": name},
+                                      "dp = %g on a grid labelled %s (%s): not the coordinate of the largest frequency-summed bin %s" % (g, name, D2, [relabel(d) for d in v["dp"]]),
+                                      {"F": v["F"], "D": D2, "E": v["E"]})
     ctx.assume("peak statistics are float32 in the library: compared at 3e-6 relative; alpha only where every f/fp is at least 2e-3 away "
                "from 1.35 and 2; among exactly tied peaks / directions any is accepted")
